@@ -1958,4 +1958,71 @@ theorem subquery_comparison_env_spec (op : CmpOp) (v : Val) (xs : List Val) :
   rw [this, Option.map_some, sqlNot_eq, toTri_triVal]
   rfl
 
+
+/-! ## the subquery-result memo -/
+/-- every cached entry is the result for some argument with that key -/
+def CacheOk {α κ β} (key : α → κ) (f : α → β) (cache : List (κ × β)) : Prop :=
+  ∀ p ∈ cache, ∃ a, key a = p.1 ∧ f a = p.2
+
+theorem assocGet_mem {κ β} [DecidableEq κ] (k : κ) (cache : List (κ × β)) (b : β) (h : assocGet k cache = some b) :
+    (k, b) ∈ cache := by
+  induction cache with
+  | nil => cases h
+  | cons p rest ih =>
+    obtain ⟨k', b'⟩ := p
+    simp only [assocGet] at h
+    by_cases e : k' = k
+    · rw [if_pos e] at h; cases h; subst e; simp
+    · rw [if_neg e] at h; simp [ih h]
+
+/-- generic memo lemma: when the key determines the result, evaluation through the memo is plain evaluation -/
+theorem memoRun_transparent {α κ β} [DecidableEq κ] (key : α → κ) (f : α → β)
+    (hdet : ∀ a b, key a = key b → f a = f b) (as : List α) (cache : List (κ × β)) (hc : CacheOk key f cache) :
+    memoRun key f as cache = as.map f := by
+  induction as generalizing cache with
+  | nil => rfl
+  | cons a as ih =>
+    simp only [memoRun, List.map_cons, memoStep]
+    cases hg : assocGet (key a) cache with
+    | some b =>
+      simp only []
+      obtain ⟨a', hk, hf⟩ := hc _ (assocGet_mem _ _ _ hg)
+      have : b = f a := by
+        have hf' : f a' = b := hf
+        rw [← hf']; exact hdet a' a hk
+      rw [this, ih cache hc]
+    | none =>
+      simp only []
+      rw [ih _ (by
+        intro p hp
+        simp only [List.mem_cons] at hp
+        rcases hp with rfl | hp
+        · exact ⟨a, rfl, rfl⟩
+        · exact hc p hp)]
+
+/-- the subquery memo: outer rows are value tuples, the subquery result depends on the columns `reads`, the key is the
+    value tuple of `keyCols`.  Transparent whenever the key contains every column the subquery reads. -/
+theorem subquery_memo_transparent {β} (reads keyCols : List Nat) (g : List Val → β) (hsub : ∀ i ∈ reads, i ∈ keyCols)
+    (rows : List Row) :
+    memoRun (fun r => keyCols.map (Sem.getCol r)) (fun r => g (reads.map (Sem.getCol r))) rows [] = rows.map fun r => g (reads.map (Sem.getCol r)) := by
+  apply memoRun_transparent
+  · intro a b hk
+    congr 1
+    apply List.map_congr_left
+    intro i hi
+    have hm := hsub i hi
+    have : ∀ (l : List Nat), i ∈ l → l.map (Sem.getCol a) = l.map (Sem.getCol b) → Sem.getCol a i = Sem.getCol b i := by
+      intro l
+      induction l with
+      | nil => intro h; cases h
+      | cons x xs ih =>
+        intro h e
+        simp only [List.map_cons, List.cons.injEq] at e
+        simp only [List.mem_cons] at h
+        rcases h with rfl | h
+        · exact e.1
+        · exact ih h e.2
+    exact this keyCols hm hk
+  · intro p hp; cases hp
+
 end SqlglotModel.Exec
